@@ -446,5 +446,314 @@ Proof.
     + destruct Hv as [Hv|(Lt & Sv & Hqe)]; [left; exact Hv|]. right.
       assert (EMT : M ++ T = skipn fr F) by (unfold M, T; rewrite <- skipn_skipn'; apply firstn_skipn).
       unfold endof in Hqe. destruct (rec_at F fr) as [e0 v0] eqn:RA. cbn [fst snd] in *. subst v0.
-      exists e0, (skipn (S fr) F). split; [|exact Hqe]. transitivity (skipn fr F); [exact EMT|]. rewrite (skipn_cons_nth F fr Lt), RA. reflexivity.
+      exists e0, (skipn (S fr) F). split; [|exact Hqe].
+      assert (SC : skipn fr F = (e0, vf) :: skipn (S fr) F) by (rewrite <- RA; apply skipn_cons_nth; exact Lt).
+      exact (eq_trans EMT SC).
+Qed.
+
+(* ================================================================ part 5: _GD_SampIndWrite from a positioned cursor *)
+Definition gstate (st : sie) : Prop :=
+  inc (-1) (recs st) /\
+  ((recs st = [] /\ cr st = -1 /\ fpos st = 0 /\ cs st = -1 /\ cp st = 0) \/
+   exists j, at_rec (recs st) j st /\ lo (recs st) j <= cp st <= cs st + 1 /\
+     (have_l st = true -> fst (cl st) + 1 = lo (recs st) j /\ ((1 <= j)%nat -> cl st = rec_at (recs st) (j - 1))) /\
+     (cp st = lo (recs st) j -> ((1 <= j)%nat -> bof st = false) /\ (j = 0%nat -> bof st = true)) /\
+     (bof st = false -> have_l st = false -> (1 <= j)%nat)).
+
+Lemma lo_succ_pos F j : inc (-1) F -> (S j <= length F)%nat -> 1 <= lo F (S j).
+Proof. intros H Hj. cbn. destruct (inc_ends (-1) F H j ltac:(lia)) as [A _]. lia. Qed.
+
+Lemma lo_le_end F j : inc (-1) F -> (j < length F)%nat -> lo F j <= endof F j.
+Proof.
+  intros H Hj. destruct j; cbn.
+  - destruct (inc_ends (-1) F H 0%nat Hj) as [A _]. lia.
+  - destruct (inc_ends (-1) F H (S j) Hj) as [_ B]. specialize (B j ltac:(lia)). lia.
+Qed.
+
+Definition write_goal zero data (st : sie) (r : option sie) : Prop :=
+  exists st', r = Some st' /\ after_write st' /\
+    sie_expand (recs st') = array_write zero (sie_expand (recs st)) (Z.to_nat (cp st)) data.
+
+(* the record the write starts in is kept as the head of the in-core records *)
+Lemma tail_keep zero data d0 r F j st1 :
+  data = d0 :: r -> inc (-1) F -> at_rec F j st1 -> lo F j < cp st1 <= cs st1 + 1 ->
+  exists st', sie_write_tail zero data (Z.of_nat (length F)) st1 (cd st1) = Some st' /\ after_write st' /\
+    sie_expand (recs st') = array_write zero (sie_expand F) (Z.to_nat (cp st1)) data.
+Proof.
+  intros Hd IF AT Hp. pose proof AT as (HF & Hr & Hf & Lt & Hcd & Hcs).
+  apply (tail_spec zero data F st1 (cd st1) j); auto; try (rewrite Hd; discriminate); try lia.
+  right. rewrite Hcd. repeat split; auto. rewrite Hcs in Hp. lia.
+Qed.
+
+(* the write starts a fresh record with the first datum *)
+Lemma tail_fresh zero data d0 r F j st1 e :
+  data = d0 :: r -> inc (-1) F -> at_rec F j st1 -> cp st1 = lo F j ->
+  exists st', sie_write_tail zero data (Z.of_nat (length F)) st1 (e, d0) = Some st' /\ after_write st' /\
+    sie_expand (recs st') = array_write zero (sie_expand F) (Z.to_nat (cp st1)) data.
+Proof.
+  intros Hd IF AT Hp. pose proof AT as (HF & Hr & Hf & Lt & Hcd & Hcs).
+  apply (tail_spec zero data F st1 (e, d0) j); auto; try (rewrite Hd; discriminate); try lia.
+  intros _. exists d0, r. split; auto. apply sample_eqb_refl.
+Qed.
+
+Lemma at_rec_setfpos F j st fp l hl :
+  at_rec F j st -> fp = Z.of_nat j + 1 ->
+  at_rec F j (mkSie (recs st) fp (cr st) (cp st) (cs st) (cd st) l hl (bof st) (filepos st)).
+Proof. intros (A & B & C & D & E0 & G) ->. repeat split; auto. Qed.
+
+Theorem write_ok zero data st :
+  gstate st -> data <> [] -> write_goal zero data st (sie_write zero data st).
+Proof.
+  intros [IF G] Hd. destruct data as [|d0 r] eqn:DD; [congruence|]. rewrite <- DD in *.
+  unfold write_goal, sie_write. rewrite DD. rewrite <- DD.
+  destruct G as [(F0 & Hr & Hf & Hs & Hp)|(j & AT & Hp & Ha & Hb & Hc)].
+  - (* empty file, write at sample 0 *)
+    unfold sie_write_ph1.
+    destruct (Z.eqb_spec (cr st) (-1)); [|lia]. destruct (Z.eqb_spec (cp st) 0); [|lia]. cbn [orb andb].
+    apply (tail_spec zero data (recs st) st (fst (cd st), d0) 0%nat); auto; try (rewrite DD; discriminate).
+    + left. repeat split; auto.
+    + rewrite Hp. cbn. lia.
+    + intros _. exists d0, r. split; auto. apply sample_eqb_refl.
+    + left. rewrite Hp. reflexivity.
+  - set (F := recs st) in *.
+    pose proof AT as (HF & Hr & Hf & Lt & Hcd & Hcs).
+    assert (CR : (cr st =? -1) = false) by (apply Z.eqb_neq; lia).
+    unfold sie_write_ph1. rewrite CR. cbn [orb].
+    destruct (bof st) eqn:B.
+    + cbn [andb negb]. destruct (Z.eqb_spec (cp st) 0) as [P0|P0].
+      * (* first record, from sample 0 *)
+        assert (J0 : j = 0%nat).
+        { destruct j; auto. pose proof (lo_succ_pos F j IF ltac:(lia)). lia. }
+        subst j. apply (tail_fresh zero data d0 r F 0%nat st); auto.
+      * assert (lo F j < cp st).
+        { destruct (Z.eq_dec (cp st) (lo F j)) as [Q|Q]; [|lia]. destruct (Hb Q) as [B1 B2].
+          destruct j; [cbn in Q; lia|]. specialize (B1 ltac:(lia)). congruence. }
+        apply (tail_keep zero data d0 r F j st); auto. lia.
+    + cbn [andb negb].
+      (* look back at the previous record *)
+      assert (BK : exists st1 na l,
+                (if have_l st then Some (st, false)
+                 else match nth_rec (recs st) (fpos st - 2) with
+                      | Some l' => Some (mkSie (recs st) (fpos st - 1) (cr st) (cp st) (cs st) (cd st) l' false false (filepos st), true)
+                      | None => None end) = Some (st1, na) /\
+                cl st1 = l /\ fst l + 1 = lo F j /\ ((1 <= j)%nat -> l = rec_at F (j - 1)) /\
+                recs st1 = F /\ cr st1 = cr st /\ cp st1 = cp st /\ cs st1 = cs st /\ cd st1 = cd st /\
+                bof st1 = false /\ filepos st1 = filepos st /\
+                fpos st1 = (if na then fpos st - 1 else fpos st) /\ have_l st1 = negb na).
+      { destruct (have_l st) eqn:HL.
+        - exists st, false, (cl st). destruct (Ha eq_refl) as [A1 A2]. repeat split; auto.
+        - specialize (Hc eq_refl eq_refl).
+          replace (fpos st - 2) with (Z.of_nat (j - 1)) by lia. rewrite nth_rec_nat.
+          fold F. rewrite (nth_error_rec_at F (j - 1)) by lia.
+          eexists _, true, (rec_at F (j - 1)). split; [reflexivity|]. cbn. repeat split; auto.
+          destruct j; [lia|]. cbn [lo]. replace (S j - 1)%nat with j by lia. reflexivity. }
+      destruct BK as (st1 & na & l & BKE & L1 & L2 & L3 & R1 & R2 & R3 & R4 & R5 & R6 & R7 & R8 & R9).
+      rewrite BKE. cbv zeta.
+      replace (cp st1 =? fst (cl st1) + 1) with (cp st =? lo F j) by (rewrite R3, L1, L2; reflexivity).
+      destruct (Z.eqb_spec (cp st) (lo F j)) as [Q|Q].
+      * destruct (Hb Q) as [B1 B2].
+        assert (J1 : (1 <= j)%nat) by (destruct j; [specialize (B2 eq_refl); congruence | lia]).
+        specialize (L3 J1).
+        destruct (sample_eqb (snd (cl st1)) d0) eqn:SE.
+        -- (* combine with the previous record *)
+           apply sample_eqb_true in SE. rewrite L1 in SE.
+           set (stc := mkSie (recs st1) (if have_l st1 then fpos st1 - 1 else fpos st1) (cr st1 - 1) (cp st1) (fst (cl st1)) (cl st1) (cl st1) false (bof st1) (filepos st1)).
+           assert (ATC : at_rec F (j - 1) stc).
+           { unfold stc, at_rec. rewrite L1. repeat split; cbn [recs cr fpos cd cs]; auto; try lia.
+             - rewrite R9, R8. destruct na; cbn [negb]; lia.
+             - rewrite L3. reflexivity. }
+           assert (PC : cp stc = cp st) by (unfold stc; cbn; auto).
+           rewrite L1.
+           pose proof (lo_le_end F (j - 1) IF ltac:(lia)) as LE.
+           assert (LOJ : lo F j = endof F (j - 1) + 1) by (destruct j; [lia|]; cbn [lo]; repeat f_equal; lia).
+           rewrite <- PC.
+           apply (tail_spec zero data F stc l (j - 1)%nat); auto; try (rewrite DD; discriminate); rewrite ?PC; try lia.
+           right. split; [lia|]. split; [now rewrite L3|]. lia.
+        -- (* a fresh record replaces the current one *)
+           set (st2 := if na then mkSie (recs st1) (fpos st1 + 1) (cr st1) (cp st1) (cs st1) (cd st1) (cl st1) true (bof st1) (filepos st1) else st1).
+           assert (AT2 : at_rec F j st2 /\ cp st2 = cp st /\ cd st2 = cd st).
+           { unfold st2, at_rec. destruct na; repeat split; cbn [recs cr fpos cd cs cp]; auto; try lia; try congruence. }
+           destruct AT2 as (AT2 & P2 & D2). rewrite D2. rewrite <- P2.
+           apply (tail_fresh zero data d0 r F j st2); auto. congruence.
+      * set (st2 := if na then mkSie (recs st1) (fpos st1 + 1) (cr st1) (cp st1) (cs st1) (cd st1) (cl st1) true (bof st1) (filepos st1) else st1).
+        assert (AT2 : at_rec F j st2 /\ cp st2 = cp st /\ cs st2 = cs st).
+        { unfold st2, at_rec. destruct na; repeat split; cbn [recs cr fpos cd cs cp]; auto; try lia; try congruence. }
+        destruct AT2 as (AT2 & P2 & S2). rewrite <- P2.
+        apply (tail_keep zero data d0 r F j st2); auto. rewrite P2, S2. lia.
+Qed.
+
+(* ================================================================ part 6: _GD_Advance and the seek loop *)
+Definition before (F : list sierec) (k : nat) (st : sie) : Prop :=
+  recs st = F /\ (k <= length F)%nat /\ fpos st = Z.of_nat k /\ cr st = Z.of_nat k - 1 /\ cs st = lo F k - 1 /\
+  ((1 <= k)%nat -> cd st = rec_at F (k - 1)).
+
+Definition flags_ok (F : list sierec) (j : nat) (r : sie) : Prop :=
+  ((1 <= j)%nat -> have_l r = true /\ cl r = rec_at F (j - 1) /\ bof r = false) /\
+  (j = 0%nat -> have_l r = false /\ bof r = true).
+
+Lemma at_rec_before F j st : at_rec F j st -> before F (S j) st.
+Proof.
+  intros (A & B & C & D & E0 & G). repeat split; auto; try lia.
+  - cbn [lo]. rewrite G. lia.
+  - intros _. replace (S j - 1)%nat with j by lia. exact E0.
+Qed.
+
+Lemma advance_step F k st : inc (-1) F -> before F k st -> (k < length F)%nat ->
+  let r := fst (advance st) in
+  snd (advance st) = false /\ at_rec F k r /\ cp r = lo F k /\ flags_ok F k r /\ filepos r = filepos st.
+Proof.
+  intros IF (A & B & C & D & E0 & G) Hk. unfold advance. rewrite A, C, nth_rec_nat, (nth_error_rec_at F k Hk).
+  rewrite E0. replace (lo F k - 1 + 1) with (lo F k) by lia.
+  destruct k as [|k].
+  - cbn [lo]. cbn [Z.ltb Z.compare fst snd]. repeat split; cbn; auto; try lia; try discriminate.
+  - pose proof (lo_succ_pos F k IF ltac:(lia)).
+    replace (0 <? lo F (S k)) with true by (symmetry; apply Z.ltb_lt; lia). cbn [fst snd].
+    repeat split; cbn [recs cr fpos cd cs cp have_l bof cl filepos]; auto; try lia.
+Qed.
+
+Lemma advance_eof F st : recs st = F -> fpos st = Z.of_nat (length F) ->
+  advance st = (mkSie (recs st) (fpos st) (cr st) (cs st + 1) (cs st) (cd st) (cl st) (have_l st) (bof st) (filepos st), true).
+Proof.
+  intros A C. unfold advance. rewrite A, C, nth_rec_nat.
+  replace (nth_error F (length F)) with (@None sierec) by (symmetry; apply nth_error_None; lia). reflexivity.
+Qed.
+
+Lemma advance_until_spec F sample : inc (-1) F -> forall fuel k st,
+  before F k st -> (length F - k < fuel)%nat ->
+  let r := advance_until fuel sample st in
+  (sample <= cs st /\ r = st) \/
+  (cs st < sample /\
+   ((exists j, (k <= j < length F)%nat /\ at_rec F j r /\ cp r = lo F j /\ sample <= endof F j /\ lo F j - 1 < sample /\
+               flags_ok F j r /\ filepos r = filepos st) \/
+    (lo F (length F) - 1 < sample /\ before F (length F) r /\ cp r = cs r + 1 /\ filepos r = filepos st /\
+     (((k < length F)%nat /\ flags_ok F (length F - 1) r) \/
+      (k = length F /\ have_l r = have_l st /\ bof r = bof st /\ cl r = cl st /\ cd r = cd st))))).
+Proof.
+  intros IF. induction fuel; intros k st B Hf; [lia|].
+  cbn [advance_until]. destruct (Z.ltb_spec (cs st) sample) as [C|C]; [right; split; [exact C|] | left; split; [lia | reflexivity]].
+  pose proof B as (A & Bk & Cf & D & E0 & G).
+  destruct (Nat.eq_dec k (length F)) as [KE|KN].
+  - (* end of file *)
+    subst k. rewrite (advance_eof F st A Cf). right.
+    split; [lia|]. split; [repeat split; cbn [recs cr fpos cd cs cp have_l bof cl filepos]; auto; lia|].
+    split; [reflexivity|]. split; [reflexivity|]. right. repeat split; reflexivity.
+  - assert (Hk : (k < length F)%nat) by lia.
+    destruct (advance_step F k st IF B Hk) as (S0 & S1 & S2 & S3 & S4).
+    destruct (advance st) as [st' eof]. cbn [fst snd] in *. subst eof.
+    pose proof S1 as (A' & _ & _ & _ & _ & Cs').
+    destruct (IHfuel (S k) st' (at_rec_before F k st' S1) ltac:(lia)) as [[I1 I2]|[I1 I2]].
+    + (* the record just read holds the sample *)
+      left. rewrite I2. exists k. rewrite Cs' in I1.
+      split; [lia|]. split; [exact S1|]. split; [exact S2|]. split; [lia|]. split; [lia|]. split; [exact S3 | exact S4].
+    + destruct I2 as [(j & Hj & J1 & J2 & J3 & J4 & J5 & J6)|(E1 & E2 & E3 & E4 & E5)].
+      * left. exists j. split; [lia|]. split; [exact J1|]. split; [exact J2|]. split; [exact J3|]. split; [exact J4|].
+        split; [exact J5 | congruence].
+      * right. split; [exact E1|]. split; [exact E2|]. split; [exact E3|]. split; [congruence|].
+        left. split; auto.
+        destruct E5 as [[K1 K2]|(K1 & K2 & K3 & K4 & K5)]; [exact K2|].
+        replace (length F - 1)%nat with k by lia.
+        destruct S3 as [T1 T2]. split.
+        -- intros Hk1. destruct (T1 Hk1) as (U1 & U2 & U3). repeat split; congruence.
+        -- intros Hk0. destruct (T2 Hk0) as (U1 & U2). split; congruence.
+Qed.
+
+(* ================================================================ part 7: _GD_SampIndSeek in write mode *)
+Definition seek_goal zero (sample : Z) (st r : sie) : Prop :=
+  gstate r /\ cp r = sample /\
+  exists m, sie_expand (recs r) = sie_expand (recs st) ++ repeat zero m /\
+            (m = 0%nat \/ (length (sie_expand (recs st)) + m <= Z.to_nat sample + 1)%nat).
+
+Lemma rec_at_app1 A X i : (i < length A)%nat -> rec_at (A ++ X) i = rec_at A i.
+Proof. intros H. unfold rec_at. now apply app_nth1. Qed.
+
+Lemma lo_app1 A X j : (j <= length A)%nat -> lo (A ++ X) j = lo A j.
+Proof. intros H. destruct j; [reflexivity|]. cbn [lo]. unfold endof. rewrite rec_at_app1 by lia. reflexivity. Qed.
+
+Lemma firstn_last_split F : (1 <= length F)%nat -> F = firstn (length F - 1) F ++ [rec_at F (length F - 1)].
+Proof.
+  intros H. rewrite <- (firstn_skipn (length F - 1) F) at 1. f_equal.
+  rewrite (skipn_cons_nth F (length F - 1)) by lia. f_equal.
+  apply skipn_all2. lia.
+Qed.
+
+(* positioned inside record j by the seek loop *)
+Lemma found_gstate F j r sample :
+  inc (-1) F -> at_rec F j r -> cp r = lo F j -> sample <= endof F j -> lo F j - 1 < sample -> flags_ok F j r ->
+  gstate (set_pos r sample).
+Proof.
+  intros IF AT Hp H1 H2 [FL1 FL2]. pose proof AT as (A & B & C & D & E0 & G).
+  unfold gstate, set_pos. cbn [recs cr fpos cd cs cp have_l bof cl]. rewrite A. split; [exact IF|]. right.
+  exists j. split; [repeat split; cbn [recs cr fpos cd cs]; auto|]. rewrite G.
+  split; [lia|]. split; [|split].
+  - intros HL. destruct j as [|j]; [destruct (FL2 eq_refl); congruence|].
+    destruct (FL1 ltac:(lia)) as (U1 & U2 & U3). rewrite U2. replace (S j - 1)%nat with j by lia.
+    split; [reflexivity | auto].
+  - intros _. split.
+    + intros Hj. apply FL1. exact Hj.
+    + intros Hj. apply FL2. exact Hj.
+  - intros Hb _. destruct j; [destruct (FL2 eq_refl); congruence | lia].
+Qed.
+
+Lemma expand_last_zero zero A top sample :
+  inc (-1) (A ++ [(top, zero)]) -> top < sample ->
+  sie_expand (A ++ [(sample, zero)]) = sie_expand (A ++ [(top, zero)]) ++ repeat zero (Z.to_nat (sample - top)).
+Proof.
+  intros I H. apply inc_app in I as [_ I2]. cbn in I2. unfold sie_expand. rewrite !expand_snoc, <- app_assoc. f_equal.
+  rewrite <- repeat_app. f_equal. lia.
+Qed.
+
+Definition pad_flags (F : list sierec) (r2 : sie) : Prop :=
+  (have_l r2 = true -> (2 <= length F)%nat /\ cl r2 = rec_at F (length F - 2)) /\
+  (bof r2 = false -> have_l r2 = false -> (2 <= length F)%nat).
+
+Lemma top_length F : inc (-1) F -> Z.of_nat (length (sie_expand F)) = lo F (length F).
+Proof.
+  intros I. unfold sie_expand. rewrite (length_expand (-1) F I).
+  pose proof (lend_firstn F (length F) I ltac:(lia)) as L. rewrite firstn_all in L. lia.
+Qed.
+
+(* the gap is covered by lengthening the last (zero) record *)
+Lemma pad_extend zero F r2 sample :
+  inc (-1) F -> (1 <= length F)%nat -> before F (length F) r2 -> lo F (length F) - 1 < sample ->
+  snd (cd r2) = zero -> pad_flags F r2 ->
+  let st3 := mkSie (rec_overwrite zero (recs r2) (fpos r2 - 1) [(sample, snd (cd r2))]) (fpos r2) (cr r2) (cp r2) sample
+                   (sample, snd (cd r2)) (cl r2) (have_l r2) (bof r2) (filepos r2) in
+  gstate (set_pos st3 sample) /\
+  exists m, sie_expand (recs st3) = sie_expand F ++ repeat zero m /\ (length (sie_expand F) + m <= Z.to_nat sample + 1)%nat.
+Proof.
+  intros IF Hn (A & _ & Cf & Cr & Cs & Cd) Htop Hz [PF1 PF2]. specialize (Cd Hn).
+  set (n := length F) in *. set (A0 := firstn (n - 1) F).
+  assert (LA0 : length A0 = (n - 1)%nat) by (unfold A0; rewrite firstn_length; lia).
+  assert (EF : F = A0 ++ [rec_at F (n - 1)]) by (apply firstn_last_split; exact Hn).
+  assert (TOP : endof F (n - 1) = lo F n - 1).
+  { replace n with (S (n - 1)) at 2 by lia. cbn [lo]. lia. }
+  assert (RL : rec_at F (n - 1) = (lo F n - 1, zero)).
+  { rewrite <- Cd in *. destruct (cd r2) as [e v]. cbn [snd] in Hz. subst v. f_equal. unfold endof in TOP. rewrite <- Cd in TOP. exact TOP. }
+  set (F' := A0 ++ [(sample, zero)]).
+  assert (RO : rec_overwrite zero (recs r2) (fpos r2 - 1) [(sample, snd (cd r2))] = F').
+  { rewrite A, Cf, Hz. unfold rec_overwrite. replace (Z.to_nat (Z.of_nat n - 1)) with (n - 1)%nat by lia. fold A0.
+    replace (n - 1 - length F)%nat with 0%nat by (fold n; lia). cbn [repeat app length].
+    rewrite skipn_all2 by (fold n; lia). reflexivity. }
+  assert (IF' : inc (-1) F').
+  { unfold F'. rewrite EF, RL in IF. apply inc_app in IF as [I1 I2]. apply inc_app. split; auto. cbn in *. lia. }
+  assert (LF' : length F' = n) by (unfold F'; rewrite app_length, LA0; cbn; lia).
+  assert (LO : lo F' (n - 1) = lo F (n - 1)).
+  { unfold F'. rewrite lo_app1 by lia. rewrite EF at 1. now rewrite lo_app1 by lia. }
+  pose proof (lo_le_end F (n - 1) IF ltac:(fold n; lia)) as LE.
+  cbv zeta. split.
+  - unfold gstate, set_pos. cbn [recs cr fpos cd cs cp have_l bof cl]. rewrite RO. split; [exact IF'|]. right.
+    exists (n - 1)%nat. split; [|split; [|split; [|split]]].
+    + unfold at_rec. cbn [recs cr fpos cd cs]. rewrite ?RO, ?Hz. repeat split; auto; try lia.
+      * unfold F', rec_at. rewrite app_nth2 by lia. replace (n - 1 - length A0)%nat with 0%nat by lia. reflexivity.
+      * unfold endof, F', rec_at. rewrite app_nth2 by lia. replace (n - 1 - length A0)%nat with 0%nat by lia. reflexivity.
+    + rewrite LO. lia.
+    + intros HL. destruct (PF1 HL) as [P1 P2]. fold n in P1, P2. rewrite P2.
+      replace (n - 1 - 1)%nat with (n - 2)%nat by lia. split.
+      * rewrite LO. replace (n - 1)%nat with (S (n - 2)) by lia. cbn [lo]. reflexivity.
+      * intros _. unfold F'. rewrite rec_at_app1 by lia. rewrite EF at 1. now rewrite rec_at_app1 by lia.
+    + intros Q. rewrite LO in Q. lia.
+    + intros Hb Hl. specialize (PF2 Hb Hl). fold n in PF2. lia.
+  - cbn [recs]. rewrite RO. exists (Z.to_nat (sample - (lo F n - 1))). split.
+    + unfold F'. rewrite EF at 2. rewrite RL. apply expand_last_zero; [|lia]. rewrite <- RL, <- EF. exact IF.
+    + pose proof (top_length F IF). fold n in H. lia.
 Qed.
